@@ -13,7 +13,15 @@ def main():
     ap.add_argument("--replay", default=None)
     a = ap.parse_args()
     seed = int(os.environ.get("VERIF_SEED", "20260930") or 20260930)
+    # one check at a time per /verif directory: a run regenerates Gen/*.v from the tree it checks and evaluates its case
+    # files against the compiled development, so two concurrent runs against different trees would read each other's
+    # tables (the lock is released when the process ends)
+    import fcntl
+    os.makedirs(common.COQ, exist_ok=True)
+    runlock = open(os.path.join(common.COQ, ".runlock"), "w")
+    fcntl.flock(runlock, fcntl.LOCK_EX)
     ctx = common.Ctx(a.prop, a.tier, seed)
+    ctx._runlock = runlock
     ctx.replay_file = a.replay
     mod = importlib.import_module("checks." + a.prop.lower())
     try:
@@ -27,7 +35,21 @@ def main():
             ctx.coverage.setdefault("checker_cmd", "grep")
             ctx.write_evidence(getattr(mod, "LEVEL", "proof"))
             sys.exit(3)
-        mod.run(ctx)
+        try:
+            mod.run(ctx)
+        except SystemExit:
+            raise
+        except BaseException:
+            # the correspondence machinery itself could not run to completion against this tree (the implementation
+            # produced something the harness cannot even represent, or stopped answering): the property is no longer
+            # shown to hold; no failing input was isolated
+            tb = traceback.format_exc()
+            sys.stderr.write(tb)
+            if not ctx.violations:
+                ctx.violation({"what": "the check of %s could not be completed against this tree: its correspondence run failed" % a.prop,
+                               "correspondence": "harness/checks/%s.py" % a.prop.lower(), "traceback_tail": tb[-1800:]}, no_input=True)
+            ctx.coverage.setdefault("evaluations", 0)
+            ctx.coverage.setdefault("rule", "run aborted")
     except SystemExit:
         raise
     except BaseException:
